@@ -19,6 +19,18 @@ theorem strict_missing_is_error (reg : Registry) (root : Json) (fuel : Nat) (ht 
   simp [renderExpression, hno, hname, expandAsName, expandParam, RM.bnd_apply, hl, hr, hmc, hev,
     PJ.isMissing, SJ.isMissing, hs]
 
+/-- … and so do `{{{path}}}` and `{{&path}}`: the unescaped spellings fail in the same way (the error leaves through the
+    escape toggle unchanged) -/
+theorem strict_missing_is_error_html (reg : Registry) (root : Json) (fuel : Nat) (ht : HelperT) (p : Path)
+    (rc : RC) (out : Out)
+    (hname : ht.name = .path p) (hno : ht.isNameOnly = true)
+    (hl : assocGet rc.localHelpers p.raw = none) (hr : assocGet reg.helpers p.raw = none)
+    (hmc : rc.modifiedCtx = none) (hs : reg.strict = true)
+    (hev : ∀ rc', rc'.blocks = rc.blocks → evaluate2 root p rc' out = .ok .missing rc' out) :
+    renderElem reg root (fuel + 4) (.html ht) rc out = .err (strictError (some p.raw)) out := by
+  have h := strict_missing_is_error reg root fuel ht p { rc with disableEscape := true } out hname hno hl hr hmc hs (hev _ rfl)
+  simp only [renderElem, RM.escOffReset, RM.bracket_apply, h]
+
 /-- non-strict: the same expression writes nothing (when no helperMissing hook is registered) -/
 theorem nonstrict_missing_writes_nothing (reg : Registry) (root : Json) (fuel : Nat) (ht : HelperT) (p : Path)
     (rc : RC) (out : Out)
